@@ -48,8 +48,44 @@ def same_second_histories(seed, n):
     return out
 
 
+def line_ending_run_histories(seed, n):
+    """Files hashed as TEXT whose middle is a long run of line endings (repo_harness.line_ending_run: prefix length x LF / CR LF /
+    CR / mixed x run length around 1, 2, 3 read buffers), under every cache.algorithm.  Two files that differ only AFTER the run
+    are committed (one command or two, any method), a second version is carried in, the copies are deleted and restored.  The
+    documented text digest is the digest of the WHOLE file without CR and LF (Props/C02Chunks.lean: the same for every division
+    into chunks), so the two files are two objects, each at the address of its own bytes (o1).  Variants: text because auto finds
+    no NUL in the first 8000 bytes (also with a NUL after them), text by option, and - as a control - binary."""
+    import random
+    from repo_check import W, T, CI, RC
+    import repo_harness as rh
+    rng = random.Random(f'c02-line-ending-runs-{seed}')
+    out = []
+    for i in range(n):
+        algo = (i + seed) % 4
+        how = ['auto', 'auto-late-nul', 'option-text', 'config-text', 'binary'][(i // 4) % 5]
+        base = rh.line_ending_run(rng)
+        if how == 'auto-late-nul':
+            base = bytes(rng.choice(b'ABCDEFGH') for _ in range(rng.choice([8000, 8191, 8192]))) + b'\x00' + base
+        A, B, C = (base + bytes(f'tail {t} of {i}/{seed}', 'ascii') + rng.choice([b'', b'\n', b'\r\n']) for t in 'ABC')
+        cfg = {'algo': algo, 'method': rng.choice(['copy', 'copy', 'symlink', 'hardlink', 'reflink']),
+               'tob': {'config-text': 'text', 'binary': 'binary'}.get(how, 'auto')}
+        tob = 'text' if how == 'option-text' else None
+        e = rng.choice(['txt', 'csv', ''])
+        nm = lambda x: x + ('.' + e if e else '')
+        p, q = nm('report-a'), nm('d/report-b')
+        np_ = lambda: rng.random() < 0.5
+        h = [W(p, A), W(q, B)]
+        h += [T([p, q], tob=tob, no_parallel=np_())] if rng.random() < 0.5 else [T([p], tob=tob, no_parallel=np_()), T([q], tob=tob, no_parallel=np_())]
+        h += [W(p, C), CI([p], tob=tob, no_parallel=np_())]
+        if rng.random() < 0.3: h.append(CI([q], tob=tob, force=True, no_parallel=np_()))
+        h += [{'op': 'delete', 'path': p}, {'op': 'delete', 'path': q}, RC([p, q], no_parallel=np_())]
+        out.append((f'line-ending-run-{how}-algo{algo}-{i}', cfg, h))
+    return out
+
+
 def extra_corpus(chk):
-    return same_second_histories(chk.seed, 28 if chk.tier == 'quick' else 280)
+    quick = chk.tier == 'quick'
+    return same_second_histories(chk.seed, 28 if quick else 280) + line_ending_run_histories(chk.seed, 20 if quick else 200)
 
 
 def run(chk):
@@ -61,7 +97,7 @@ def run(chk):
                                     'errors': [f'translator/extract_addr.py: {e}'],
                                     'note': 'the Rust source no longer has the shape the address-format model transcribes; Gen/Addr.lean left as it was'})
     chk.trusted_base.append('translator/extract_addr.py (anchored extraction of the strum prefixes, DIGEST_LENGTH, the two split_at of cache_dir and the file name format; fails loudly)')
-    return rc.run_property(chk, 'C02', ORACLES, restore=RESTORE, extra_corpus=extra_corpus(chk))
+    return rc.run_property(chk, 'C02', ORACLES, restore=RESTORE, extra_corpus=extra_corpus(chk), extra_props=['XvcRepo.Props.C02Chunks'])
 
 
 def replay(chk, data):
